@@ -589,12 +589,23 @@ class Lib:
                 if any(x is not y for x, y in zip(a2, args)) or any(k2[kk] is not kwargs[kk] for kk in kwargs):
                     if deep_concrete([x for x in a2 if not callable(x)]) and deep_concrete({kk: x for kk, x in k2.items() if not callable(x)}):
                         args, kwargs = a2, k2
-            if str(getattr(fn, "__module__", "") or "").split(".")[0] == "numpy" and any(type(x).__name__ == "NDArr" for x in list(args) + list(kwargs.values())):
-                # an unmodelled numpy function on model arrays that hold nothing symbolic: run it on the numbers
+            if str(getattr(fn, "__module__", "") or "").split(".")[0] == "numpy" and any(type(x).__name__ == "NDArr" or isinstance(x, SV) for x in list(args) + list(kwargs.values())):
+                # an unmodelled numpy function on model arrays / scalars that hold nothing symbolic: run it on the numbers
                 def nat_arr(v):
                     if type(v).__name__ == "NDArr":
                         r = self.numpy.try_native(I, v)
                         return v if r is None else r
+                    if isinstance(v, SV):
+                        nn = nan_of(v)
+                        if nn is not None and not z3.is_false(z3.simplify(nn)):
+                            return float("nan") if z3.is_true(z3.simplify(nn)) else v
+                        t = z3.simplify(v.t)
+                        if z3.is_int_value(t):
+                            return t.as_long()
+                        if z3.is_rational_value(t):
+                            return t.numerator_as_long() / t.denominator_as_long()
+                        if z3.is_true(t) or z3.is_false(t):
+                            return z3.is_true(t)
                     return v
                 a3 = [nat_arr(x) for x in args]
                 k3 = {kk: nat_arr(x) for kk, x in kwargs.items()}
